@@ -252,6 +252,58 @@ def check_loop_reset(P, rep, key, label, rule="R-PAIR.reset"):
                                 if h not in P.reach(fn, [tt["else"]]):
                                     good = True
         if not good:
+            # idiom: `reset() == Some(Interrupt::Break)` (derived PartialEq against a promoted constant)
+            import predpath
+            for rb in resets:
+                if rb not in P.reach(fn, [s]):
+                    continue
+                d = fn.blocks[rb]["t"]["d"][0]
+                for b2, t2 in P.calls(fn):
+                    f2 = t2.get("f")
+                    if not f2 or f2["id"] not in ("core::cmp::PartialEq::eq", "core::cmp::PartialEq::ne") or len(t2["args"]) != 2:
+                        continue
+                    sides = []
+                    for a in t2["args"]:
+                        ol = op_local(a)
+                        kind = None
+                        if ol:
+                            from mirutil import defs_of
+                            cur = ol[0]
+                            for _ in range(4):
+                                ds = defs_of(fn, cur)
+                                if len(ds) != 1 or ds[0][0] != "a":
+                                    break
+                                rv = ds[0][3]
+                                if rv["k"] == "ref" and rv["p"][0] == d:
+                                    kind = "reset"
+                                    break
+                                if rv["k"] == "ref":
+                                    cur = rv["p"][0]
+                                    continue
+                                if rv["k"] == "use" and rv["o"][0] == "k":
+                                    pc = predpath._promoted_const(P, fn, rv["o"][1])
+                                    pid = "%s::{promoted#%s}" % (rv["o"][1].get("uneval"), rv["o"][1].get("promoted")) if isinstance(rv["o"][1], dict) else None
+                                    pf = P.fns.get(pid) if pid else None
+                                    if pf is not None and any(st[0] == "a" and st[2]["k"] == "agg" and st[2].get("vname") == "Break" for b3 in pf.blocks for st in b3["s"]):
+                                        kind = "break-const"
+                                    break
+                                if rv["k"] == "use" and op_local(rv["o"]):
+                                    cur = op_local(rv["o"])[0]
+                                    continue
+                                break
+                        sides.append(kind)
+                    if sorted(x or "" for x in sides) != ["break-const", "reset"]:
+                        continue
+                    r2 = t2["d"][0]
+                    for b3, blk in enumerate(fn.blocks):
+                        tt = blk["t"]
+                        if tt["k"] == "switch" and op_local(tt["o"]) and op_local(tt["o"])[0] == r2:
+                            true_edge = [tt["else"]]
+                            false_edge = [tb for v, tb in tt["t"] if v == 0]
+                            brk = true_edge if f2["id"].endswith("::eq") else false_edge
+                            if brk and h not in P.reach(fn, brk):
+                                good = True
+        if not good:
             rep.viol(rule, site + " break-ignored", P.where(fn, t["line"]), "Interrupt::Break after a body render does not leave the loop")
         else:
             rep.ok(rule, site + " #%d" % n, P.where(fn, t["line"]), "reset() post-dominates the body render before the back-edge/exit; Break exits")
@@ -700,6 +752,48 @@ def run_range(P, rep, rule="R-RANGE"):
         rep.ok(rule, "Range::evaluate", P.where(fn), "start..=stop over the evaluated bounds; no non-strict comparison of the bounds")
 
 
+def _nonempty_edge_targets(P, fn):
+    """Targets of switch edges taken exactly when a Vec::len() result is non-zero / is_empty() is false."""
+    out = []
+    lens = {t["d"][0]: "len" for bi, t in P.calls(fn) if t.get("f") and t["f"]["name"].endswith("Vec::<T, A>::len")}
+    lens.update({t["d"][0]: "empty" for bi, t in P.calls(fn) if t.get("f") and t["f"]["name"].endswith("Vec::<T, A>::is_empty")})
+    from mirutil import copy_root
+    meaning = {}
+    for l, k in lens.items():
+        meaning[l] = k
+    for b in fn.blocks:
+        for st in b["s"]:
+            if st[0] != "a" or st[1][1]:
+                continue
+            rv = st[2]
+            if rv["k"] == "bin" and rv["op"] in ("Eq", "Ne", "Gt") and rv["b"][0] == "k" and isinstance(rv["b"][1], dict) and rv["b"][1].get("val") == 0:
+                la = op_local(rv["a"])
+                if la and meaning.get(copy_root(fn, la[0])) == "len":
+                    meaning[st[1][0]] = "empty" if rv["op"] == "Eq" else "nonempty"
+            elif rv["k"] == "un" and rv.get("op") == "Not":
+                la = op_local(rv["a"])
+                m = meaning.get(copy_root(fn, la[0])) if la else None
+                if m in ("empty", "nonempty"):
+                    meaning[st[1][0]] = "nonempty" if m == "empty" else "empty"
+    for b in fn.blocks:
+        t = b["t"]
+        if t["k"] != "switch":
+            continue
+        ol = op_local(t["o"])
+        if not ol or ol[1]:
+            continue
+        m = meaning.get(ol[0]) or meaning.get(copy_root(fn, ol[0]))
+        if not m:
+            continue
+        zero = [tb for v, tb in t["t"] if v == 0]
+        other = [t["else"]] + [tb for v, tb in t["t"] if v != 0]
+        if m in ("len", "nonempty"):
+            out += other
+        elif m == "empty":
+            out += zero
+    return out
+
+
 def run_empty_ok(P, rep, rule="R-EMPTYOK"):
     """Between the selection of the window (iter_array) and the element loop nothing can fail: an empty selection
     must reach the else-branch / Ok(()) without an error that depends on loop quantities."""
@@ -729,6 +823,23 @@ def run_empty_ok(P, rep, rule="R-EMPTYOK"):
                     bad.append(t["line"])
                 if t["f"]["id"].endswith("::into_err") and t["d"][0] == 0:
                     bad.append(t["line"])
+        # an error that can only happen when the selection is known to be non-empty is not a failure of the empty case
+        ne_targets = _nonempty_edge_targets(P, fn)
+        pred_ = P.pred(fn)
+        line_blocks = {}
+        for bi in region:
+            b = fn.blocks[bi]
+            for st in b["s"]:
+                if len(st) > 3:
+                    line_blocks.setdefault(st[3], set()).add(bi)
+            line_blocks.setdefault(b["t"].get("line"), set()).add(bi)
+        keep = []
+        for l in bad:
+            blks = line_blocks.get(l, set())
+            if blks and all(any(len(pred_[tb]) == 1 and P.dominates(fn, tb, x) for tb in ne_targets) for x in blks):
+                continue
+            keep.append(l)
+        bad = keep
         # the else render of `for` legitimately propagates its own error: remove lines of render_to `?`
         else_lines = {t["line"] for bi, t in render_calls(P, fn) if loop_header(P, fn, bi) is None}
         bad = [l for l in bad if not any(abs(l - e) <= 3 for e in else_lines)]
